@@ -4,6 +4,7 @@
    library's own observer reported for a result must be the degree of that result. -/
 import Driver.Common
 import GivaroModel.Model.Poly
+import GivaroModel.Model.PolyInterp
 import GivaroModel.Spec.PolySpec
 -- @driver-mode poly Driver.Poly.polyLine
 namespace Driver.Poly
@@ -363,7 +364,15 @@ def polyCase (thr : Nat) (key : String) (a : Array String) (r : Array String) : 
       else Givaro.Model.Poly.pad nn (Givaro.Model.Poly.karamidStep (Givaro.Model.Poly.midR thr fuel) nn A B)
     pure { spec := raw = want, model := raw = m, info := renderPoly m }
   -- interpolation / CRT through their defining identities
-  | "interp" | "crt" => do
+  | "interp" => do
+    -- Interpolation<Domain> (givinterp.h): defining identity (values at the points, degree bound: `interp_unique`) and the
+    -- model of the Newton / divided-difference object (`interp_exact`)
+    let xs ← P 0; let fs ← P 1; let q ← RP 0
+    if xs.length != fs.length || xs.eraseDups.length != xs.length then pure { pre := false, spec := true } else
+    let ok := (xs.zip fs).all (fun (x, f) => seval q.1 x = f)
+    let m := Givaro.Model.PolyInterp.interpolator (xs.zip fs)
+    pure { spec := ok && decide (sdeg q.1 < xs.length) && degOk q, model := eqv m q.1, info := renderPoly (norm m) }
+  | "crt" => do
     let xs ← P 0; let fs ← P 1; let q ← RP 0
     if xs.length != fs.length || xs.isEmpty || xs.eraseDups.length != xs.length then pure { pre := false, spec := true } else
     let ok := (xs.zip fs).all (fun (x, f) => seval q.1 x = f)
